@@ -59,10 +59,15 @@ _c13("K13-excl1-count", "c13_exclude1_count", ["Exclude::{new,advance}", "DocSet
 _c13("K13-sunion-count", "c13_simple_union_count", ["SimpleUnion::{build,count_including_deleted,advance_to_next}"], "one call", title="SimpleUnion::count_including_deleted = |A∪B|", tiers="t", timeout=900)
 _c13("K13-sunion-bitset", "c13_simple_union_bitset_block", ["SimpleUnion::{build,seek,advance}", "DocSet::fill_bitset_block (default)"], "one call", title="fill_bitset_block on SimpleUnion", tiers="t", timeout=900)
 _c13("K13-phraseprefix-sd", "c13_phrase_prefix_single_seek_danger", ["PhrasePrefixScorer::<ArrPostings>::{new,seek_danger,matches_prefix,doc,phrase_count}", "PhraseKind::{seek,advance,get_intersection}", "phrase_query::intersection_count"],
-     "term + one prefix expansion over array postings: <= 2 docs per list, 1 symbolic position per doc; one seek_danger(t) call (+ recovery call)", tiers="t", timeout=2400, mem=30,
+     "term + one prefix expansion over array postings: <= 2 docs per list, 1 symbolic position per doc; one seek_danger(t) call (+ recovery call)", tiers="qt", timeout=2400, mem=30,
      title="PhrasePrefixScorer (single-prefix kind): seek_danger(t) = Found iff t is a match, lower bound otherwise", unwindset=GO_FIRST + [("binary_search", 10)])
 _c13("K13-phraseprefix-sa", "c13_phrase_prefix_single_seek_adv", ["PhrasePrefixScorer::{new,advance,seek}"], "as above, one advance / seek(t) call", tiers="t", timeout=2400, mem=30,
      title="PhrasePrefixScorer: advance / seek observe the sorted sequence of phrase-prefix matches", unwindset=GO_FIRST + [("binary_search", 10)])
+_c13("K13-phrase-sa", "c13_phrase_scorer_seek_adv", ["PhraseScorer::<ArrPostings>::{new,advance,seek,phrase_match,compute_phrase_match}", "Intersection<PostingsWithOffset<_>>", "phrase_scorer::intersection_exists"],
+     "two-term phrase over array postings (<= 2 docs per list, 1 position per doc), slop 0, one advance / seek(t) call", tiers="t", timeout=2400, mem=30,
+     title="PhraseScorer: advance / seek observe the sorted sequence of documents where b follows a", unwindset=GO_FIRST + [("binary_search", 10)])
+_c13("K13-phrase-sd", "c13_phrase_scorer_seek_danger", ["PhraseScorer::{new,seek_danger,phrase_match}"], "as above, one seek_danger(t) call", tiers="t", timeout=2400, mem=30,
+     title="PhraseScorer: seek_danger(t) = Found iff t is a phrase match, lower bound otherwise", unwindset=GO_FIRST + [("binary_search", 10)])
 _c13("K13-disj-p2", "c13_disjunction_msm2_prog2", ["Disjunction::<ConstScorer<Arr>,SumCombiner>::{new,advance,doc,score}", "BinaryHeap<ScorerWrapper<_>>", "DocSet::seek (default)"],
      "3 leaves x <=2 docs, minimum_matches_required = 2, programs of 2 calls; unwind 5 + swap loops 20",
      title="Disjunction(min-should-match 2) = docs in >=2 leaves; score = sum of matching", tiers="t", unwindset=[("swap_nonoverlapping", 20)], timeout=900)
@@ -128,14 +133,6 @@ for _n, _h in (("positions", "c07_skip_roundtrip_positions"), ("freqs", "c07_ski
       title="block-max metadata read back from the skip list bounds what was written (fieldnorm id exact, term freq >= written), record option " + _n,
       functions=["SkipSerializer::write_blockwand_max", "SkipReader::read_block_info", "decode_block_wand_max_tf"],
       bounds="2 full blocks + tail, all fields symbolic; unwind 6", assumes=["seek target <= TERMINATED"])
-K("C06", "K06-merge-k2", "c06_merge_top_k_k2_3segs", tiers="t", timeout=1200,
-  title="merge_top_k over 3 segment fruits in arbitrary intra-segment order = global top K with address tie-break",
-  functions=["sort_key_top_collector::merge_top_k", "TopNComputer::*"], bounds="K=2, 3 segments x 2 items, keys < 4, docs < 16",
-  assumes=["a segment fruit is the segment's top K in ANY order (into_vec promises none)"])
-K("C06", "K06-merge-k4", "c06_merge_top_k_k4_3segs", tiers="t", timeout=3600, mem=40,
-  title="merge_top_k, K=4, segments of 4+2+4 items", functions=["merge_top_k", "TopNComputer::*"], bounds="keys < 3, docs < 16",
-  assumes=["a segment fruit is the segment's top K in ANY order"])
-
 # ---------------------------------------------------------------------------------------------
 # C07  inverted index codecs
 # ---------------------------------------------------------------------------------------------
